@@ -118,6 +118,13 @@ type c05Family struct {
 	maxLen   int
 	alpha3   []string // segment alphabet of the 3-segment request paths
 	firstGET bool
+	// pad > 0: the enumerated declarations are embedded among `pad` static routes per method (/p0, /p1, ... which no
+	// request names), some before, some between and some after them: dispatch must not depend on how large the table
+	// is (pre-sorted or indexed route lists behave differently beyond small sizes)
+	pad int
+	// where the static routes go: "" = some before, some between, some after; "after" = all declared last;
+	// "before" = all declared first
+	padAt string
 }
 
 func (f c05Family) count() int {
@@ -142,6 +149,43 @@ func (f c05Family) table(i int) []c05Decl {
 	} else {
 		t[0] = f.decls[i]
 	}
+	if f.pad > 0 {
+		var out []c05Decl
+		k := 0
+		pads := func(n int) {
+			for j := 0; j < n; j++ {
+				for _, m := range []string{"GET", "POST"} {
+					// padding of all specificities: static, one parameter after / before a static segment
+					pat := fmt.Sprintf("/p%d", k)
+					switch k % 3 {
+					case 1:
+						pat = fmt.Sprintf("/p%d/:z", k)
+					case 2:
+						pat = fmt.Sprintf("/:z/p%d", k)
+					}
+					out = append(out, c05Decl{m, pat})
+				}
+				k++
+			}
+		}
+		before := f.pad / 2
+		between := (f.pad - before) / (len(t))
+		switch f.padAt {
+		case "after":
+			before, between = 0, 0
+		case "before":
+			before, between = f.pad, 0
+		}
+		pads(before)
+		for i, d := range t {
+			out = append(out, d)
+			if i < len(t)-1 {
+				pads(between)
+			}
+		}
+		pads(f.pad - k)
+		return out
+	}
 	return t
 }
 
@@ -153,13 +197,21 @@ func c05Families(thorough bool) []c05Family {
 	if !thorough {
 		return []c05Family{
 			{name: "patterns<=2seg,1decl", decls: d2, size: 1, maxLen: 2, alpha3: c05Alpha3},
-			{name: "patterns<=2seg,2decl", decls: d2, size: 2, maxLen: 2, alpha3: c05Alpha3}}
+			{name: "patterns<=2seg,2decl", decls: d2, size: 2, maxLen: 2, alpha3: c05Alpha3},
+			{name: "patterns<=2seg,2decl,among-18-unrelated-routes-per-method", decls: d2, size: 2, maxLen: 2, alpha3: nil, pad: 18},
+			{name: "patterns<=2seg,2decl,then-18-unrelated-routes-per-method", decls: d2, size: 2, maxLen: 2, alpha3: nil, pad: 18, padAt: "after"},
+			{name: "patterns<=2seg,2decl,after-18-unrelated-routes-per-method", decls: d2, size: 2, maxLen: 2, alpha3: nil, pad: 18, padAt: "before"}}
 	}
 	d3 := c05Decls(3)
 	return []c05Family{
 		{name: "patterns<=3seg,1decl", decls: d3, size: 1, maxLen: 3, alpha3: c05Alpha3},
 		{name: "patterns<=3seg,2decl", decls: d3, size: 2, maxLen: 3, alpha3: c05Alpha3},
-		{name: "patterns<=2seg,3decl,first=GET", decls: d2, size: 3, maxLen: 2, alpha3: c05Alpha3Small, firstGET: true}}
+		{name: "patterns<=2seg,3decl,first=GET", decls: d2, size: 3, maxLen: 2, alpha3: c05Alpha3Small, firstGET: true},
+		{name: "patterns<=2seg,2decl,among-18-unrelated-routes-per-method", decls: d2, size: 2, maxLen: 2, alpha3: c05Alpha3Small, pad: 18},
+		{name: "patterns<=2seg,2decl,then-18-unrelated-routes-per-method", decls: d2, size: 2, maxLen: 2, alpha3: c05Alpha3Small, pad: 18, padAt: "after"},
+		{name: "patterns<=2seg,2decl,after-18-unrelated-routes-per-method", decls: d2, size: 2, maxLen: 2, alpha3: c05Alpha3Small, pad: 18, padAt: "before"},
+		{name: "patterns<=2seg,2decl,among-40-unrelated-routes-per-method", decls: d2, size: 2, maxLen: 2, alpha3: nil, pad: 40},
+		{name: "patterns<=2seg,2decl,then-40-unrelated-routes-per-method", decls: d2, size: 2, maxLen: 2, alpha3: nil, pad: 40, padAt: "after"}}
 }
 
 // request paths for a table family: words of length <= 2 over the full segment
@@ -168,7 +220,9 @@ func c05Families(thorough bool) []c05Family {
 // names the path parameters (it must not disturb dispatch or binding).
 func c05Paths(f c05Family) []string {
 	out := c05Words(c05ReqAlpha, 1, 2)
-	out = append(out, c05Words(f.alpha3, 3, 3)...)
+	if f.alpha3 != nil {
+		out = append(out, c05Words(f.alpha3, 3, 3)...)
+	}
 	if f.maxLen >= 3 {
 		out = append(out, c05Words([]string{"a", "b", ""}, 4, 4)...)
 	}
